@@ -105,6 +105,22 @@ def scenarios(ctx):
         inst = rand_instance(rng, big=(i % 4 == 0))
         covered = {c[0] for r in inst["reads"] for c in r["cells"]}
         scs.append({"inst": inst, "positions": not (len(covered) == inst["m"] and rng.random() < 0.5)})
+    # ---- instances that whole `whatshap phase` runs hand to the solver (recorded by the H1 hook) ----
+    from .. import phaseworld as PW
+    for i in range(250 if q else 4000):
+        fam = rng.choice(["single", "single", "trio", "quartet"])
+        ped = {"trio": [["s1", "s2", "s3"]], "quartet": [["s1", "s2", "s3"], ["s1", "s2", "s4"]]}.get(fam, [])
+        w = PW.rand_world(rng, nsamples={"single": 1, "trio": 3, "quartet": 4}[fam], nchroms=1, ped=ped,
+                          max_sites=rng.choice([4, 6]) if ped else rng.choice([5, 9]), depth=(1, 2), het_prob=0.8, kinds=("snv",))
+        for r in list(w["reads"]):            # conflicting reads: non-zero optimal cost
+            if rng.random() < 0.4:
+                w["reads"].append(dict(r, alleles=[rng.randint(0, 1) for _ in range(r["first"], r["last"] + 1)], gap=None, copies=1))
+        w["errfree"] = False
+        w["opts"] = {"ped": bool(ped), "max_coverage": rng.choice([4, 6, 8]) if ped else rng.choice([3, 5, 8]),
+                     "distrust": rng.random() < 0.25}
+        if w["opts"]["distrust"]:
+            w["pl_weak"] = True
+        scs.append({"kind": "pipeline", "world": w})
     return scs
 
 
@@ -141,20 +157,48 @@ def solve(inst, positions=True):
     return {"ev": "Solve", "inst": inst, "cost": int(cost), "part": [int(x) for x in part], "tv": [int(x) for x in tv], "sr": sr}
 
 
+def h1_to_solve(h):
+    """An H1 hook record (projected by wv.phaseworld) as a Solve event: the instance whatshap phase built
+    for one (chromosome, family) and what the solver returned for it."""
+    acc = h["acc"]
+    col = {p: i + 1 for i, p in enumerate(acc)}
+    fam = h["fam"]
+    ind = {s: i + 1 for i, s in enumerate(fam)}
+    m = len(acc)
+    inst = {"nInd": len(fam), "trios": [[ind[x] for x in t] for t in h["trios"]], "m": m, "rc": list(h["rc"])[:m] if m else [],
+            "reads": [{"ind": ind[r["s"]], "cells": [[col[p], a, q] for p, a, q in r["vars"] if p in col]} for r in h["reads"]],
+            "distrust": bool(h["gls"] and any(h["gls"])), "gt": [[max(0, g) for g in row] for row in h["gts"]],
+            "gl": [row if row else [[0, 0, 0]] * m for row in h["gls"]] if h["gls"] and any(h["gls"]) else [[[0, 0, 0]] * m for _ in fam]}
+    return {"ev": "Solve", "inst": inst, "cost": h["cost"], "part": h["part"], "tv": h["tv"] if h["tv"] else [0] * m,
+            "sr": [[[a if a in (0, 1) else (3 if a != 9 else 9) for a in hap] for hap in pair] for pair in h["sr"]], "src": "pipeline"}
+
+
 def drive(sc):
+    if sc.get("kind") == "pipeline":
+        from .. import phaseworld as PW
+        e = PW.phase_run_event(sc["world"])
+        if e["exc"]:
+            return [{"ev": "Crashed", "where": "exception:" + e["exc"][:100], "detail": e["exc"]}]
+        # TLC's brute force is 2^reads x (4^trios)^2 per column: keep what it can judge in about a second
+        lim = {0: 10, 1: 7, 2: 5}
+        return [h1_to_solve(h) for h in e["h1"] if h["alg"] == "whatshap" and len(h["reads"]) <= lim.get(len(h["trios"]), 4)
+                and len(h["acc"]) <= 8] or \
+               [{"ev": "Solve", "inst": {"nInd": 1, "trios": [], "m": 0, "rc": [], "reads": [], "distrust": False, "gt": [[]], "gl": [[]]},
+                 "cost": 0, "part": [], "tv": [], "sr": [[[], []]], "src": "pipeline-empty"}]
     return [solve(sc["inst"], sc.get("positions", True))]
 
 
 def nontrivial(sc, events):
-    e = events[0]
-    if e.get("ev") != "Solve" or e["cost"] <= 0:
-        return False
-    cols = [c[0] for r in sc["inst"]["reads"] for c in r["cells"]]
-    return len(cols) != len(set(cols))
+    for e in events:
+        if e.get("ev") == "Solve" and e["cost"] > 0:
+            cols = [c[0] for r in e["inst"]["reads"] for c in r["cells"]]
+            if len(cols) != len(set(cols)):
+                return True
+    return False
 
 
 def signature(sc, events, clause):
-    i = sc["inst"]
+    i = sc["inst"] if "inst" in sc else (events[0].get("inst") or {"nInd": 0, "trios": [], "distrust": False})
     return f"nInd={i['nInd']} trios={len(i['trios'])} distrust={i['distrust']}"
 
 
